@@ -582,10 +582,10 @@ impl Sess {
                 best = Some((i, what));
             }
         };
+        // (on a consistent chain the double-spend and the funding transaction exclude each other;
+        // in the malformed stream both may be there, and a buried double-spend is one all the same)
         if let Some(i) = pos(base + D) {
-            if pos(base + F).is_none() {
-                offer(i, "double-spend");
-            }
+            offer(i, "double-spend");
         }
         if let Some(i) = pos(base + M) {
             offer(i, "mutual-close");
@@ -1122,6 +1122,18 @@ fn scripted(args: &Args) {
         New(k2), Setup(k2, n.clone()), Add(vec![tid(0, F)]), Add(vec![tid(0, C), tid(0, S)]), Add(vec![tid(0, H)]), Forget(k2),
         Burst(md + 1), Heartbeat, Add(vec![tid(0, X)]), Burst(md.saturating_sub(2)), Restart, Heartbeat, Add(vec![]), Remove, Heartbeat, Add(vec![]), Heartbeat,
     ]));
+    // the last sweep of a unilateral close is reorged out (our output was swept in an earlier
+    // block): the close is no longer swept on the best chain, however deep the rest gets
+    scripts.push(("last-sweep-reorged-out", 1000, vec![
+        New(k2), Setup(k2, n.clone()), Add(vec![tid(0, F)]), Add(vec![tid(0, C)]), Add(vec![tid(0, S)]), Add(vec![tid(0, H)]), Add(vec![tid(0, X)]),
+        Remove, Forget(k2), Burst(md + 1), Heartbeat, Restart, Heartbeat,
+        Add(vec![tid(0, X)]), Burst(md.saturating_sub(2)), Heartbeat, Add(vec![]), Heartbeat,
+    ]));
+    // the same with the HTLC spend and the second-level spend both reorged out, forget first
+    scripts.push(("htlc-sweeps-reorged-out", 1000, vec![
+        New(k2), Setup(k2, n.clone()), Add(vec![tid(0, F)]), Add(vec![tid(0, C), tid(0, S)]), Add(vec![tid(0, H)]), Add(vec![tid(0, X)]), Forget(k2),
+        Remove, Remove, Burst(md), Heartbeat, Add(vec![]), Heartbeat, Add(vec![tid(0, H), tid(0, X)]), Burst(md.saturating_sub(1)), Heartbeat,
+    ]));
     // forget on a node that was itself restored from the store, then restart
     scripts.push(("forget-on-restored-node", 1000, vec![
         New(k1), Setup(k1, n.clone()), Add(vec![tid(0, F)]), Restart, Forget(k1), Restart, Heartbeat,
@@ -1147,6 +1159,48 @@ fn random(args: &Args, malformed: bool) {
         let mut removed_run = 0;
         let mut blocks_budget: usize = if args.tier == "quick" { 330 } else { 700 };
         let dbids: Vec<u64> = if malformed { vec![0, 1, 2, 3, 4, u64::MAX] } else { vec![1, 2, 3, 4] };
+        // one case in four starts with a unilateral close whose sweeps are spread over several
+        // blocks (our output first), a reorg that removes the later sweep blocks, forget before or
+        // after the reorg, and a burst up to the threshold: "swept once, not swept now"
+        if rng.chance(1, 4) {
+            let k: Key = (rng.below(2), *rng.pick(&[2u64, 4u64]));
+            let mut pre: Vec<Op> = vec![Op::New(k), Op::Setup(k, SetupKind::Normal), Op::Add(vec![tid(0, F)])];
+            let (groups, removes): (Vec<Vec<u64>>, usize) = match rng.below(6) {
+                0 => (vec![vec![C], vec![S], vec![H], vec![X]], 1),
+                1 => (vec![vec![C, S], vec![H], vec![X]], 1),
+                2 => (vec![vec![C], vec![S], vec![H], vec![X]], 2),
+                3 => (vec![vec![C], vec![S, H], vec![X]], 1),
+                4 => (vec![vec![C], vec![S], vec![H, X]], 1),
+                _ => (vec![vec![C], vec![S], vec![], vec![H], vec![X]], 2),
+            };
+            for gblk in groups {
+                pre.push(Op::Add(gblk.iter().map(|t| tid(0, *t)).collect()));
+            }
+            let forget_first = rng.chance(1, 2);
+            if forget_first {
+                pre.push(Op::Forget(k));
+            }
+            for _ in 0..removes {
+                pre.push(Op::Remove);
+            }
+            if !forget_first {
+                pre.push(Op::Forget(k));
+            }
+            let n = *rng.pick(&[md.saturating_sub(1), md, md + 1]);
+            blocks_budget = blocks_budget.saturating_sub(n);
+            pre.push(Op::Burst(n));
+            pre.push(Op::Heartbeat);
+            let mut ok = true;
+            for op in pre.iter() {
+                if !s.apply(op) {
+                    ok = false;
+                    break;
+                }
+            }
+            if ok {
+                s.bump("sweep_reorg_prefix");
+            }
+        }
         for _ in 0..len {
             let known: Vec<Key> = s.last.mem.keys().cloned().collect();
             let any_key = |rng: &mut Rng| -> Key { (rng.below(2), *rng.pick(&dbids)) };
